@@ -104,6 +104,13 @@ def run(ctx):
         fam = VARIANTS[n % 2]
         procs = [[call(fam[(g + i) % len(fam)], (g + n) % 5, "enc", ENCS[n % 3]) for i in range(len(fam))] for g in range(8)]
         jobs.append({"id": "warm-variants-%d" % n, "job": {"mode": "free", "reps": 150 if ctx.quick else 400, "procs": procs}})
+    # (e) shared values: 8 goroutines encode the SAME message values (big integers of both signs among them) again and again:
+    # encoding reads its input, so sharing a value between goroutines changes nothing
+    nshared = 3 if ctx.quick else 12
+    for n in range(nshared):
+        fam = ["RespGetBig", "RespGet", "ReqLocate"]
+        procs = [[call(fam[(g + i) % len(fam)], (n + 4) % 5, "enc", ENCS[(n + i) % 3]) for i in range(len(fam))] for g in range(8)]
+        jobs.append({"id": "shared-values-%d" % n, "job": {"mode": "free", "shared": True, "reps": 150 if ctx.quick else 400, "procs": procs}})
     jpath = os.path.join(ctx.work, "jobs.ndjson")
     vlib.write_ndjson(jpath, jobs)
     results = []
